@@ -349,3 +349,82 @@ class FilenamesRun(Contract):
 
 
 ALL += [FilenamesRun]
+
+
+class FilenamesInit(Contract):
+    """filenames(path): a directory is turned into the pattern that matches exactly its entries; a pattern, and a path that is no
+    directory, are kept as given.  (C17: `filenames` emits every file that appears under the directory the caller named.)"""
+    file = SRC
+    files = [SRC, 'streamz/core.py']
+    qual = 'filenames.__init__'
+    props = ['C17']
+    assumptions = ('os.path.isdir is an opaque predicate of the path; os.path.sep is "/" (POSIX; the code itself appends "/")',
+                   'Source.__init__ is summarised (its own contract: Source.__init__)')
+
+    def build(self, I):
+        st = State()
+        I.st = st
+        g = st.ghost
+        g['base_inits'] = VInt(0)
+        selfv = st.new_obj('filenames', {})
+        path = VString(z3.String('path'))
+        poll = VReal(z3.Real('poll'))
+        self.isdir = z3.Bool('path_is_a_directory')
+        self.pre_args = {'self': selfv, 'path': path, 'poll_interval': poll}
+        self.pre_state = st.snapshot()
+        g['_pre'] = (self.pre_state, self.pre_args)
+        I.contract_pre = self.pre_state
+        I.contract_pre_frame = self.pre_frame(I)
+        return selfv, [path], {'poll_interval': poll}
+
+    def globals(self):
+        return {'os': VBuiltin('os')}
+
+    def summaries(self):
+        def endswith(I, recv, args, kwargs):
+            a = args[0]
+            if isinstance(a, VBuiltin) and a.name == 'os.path.sep':
+                a = VStr('/')
+            return VBool(z3.SuffixOf(I.string_term(a), I.string_term(recv)))
+
+        def base_init(I, recv, args, kwargs):
+            I.st.ghost['base_inits'] = VInt(I.st.ghost['base_inits'].t + 1)
+            return NONE
+        return {'str.endswith': endswith, 'Source.__init__': base_init, 'Stream.__init__': base_init}
+
+    def spec_funcs(self):
+        def isdir(I, args, kwargs, fr):
+            return VBool(self.isdir)
+
+        def is_dir(I):
+            return VBool(self.isdir)
+
+        def ends_with_sep(I, s):
+            return VBool(z3.SuffixOf(z3.StringVal('/'), I.string_term(s)))
+
+        def implies_(I, a, b):
+            return VBool(z3.Implies(I.truth(a), I.truth(b)))
+
+        def set_(I, args, kwargs, fr):
+            if args:
+                raise Unsupported('set(...) with an argument in filenames.__init__')
+            return I.st.new_set(SetCell(z3.K(StrS, z3.BoolVal(False)), K_STRING, z3.IntVal(0)))
+        return {'builtin_os.path.isdir': isdir, 'is_dir': is_dir, 'ends_with_sep': ends_with_sep, 'implies': implies_,
+                'builtin_set': set_}
+
+    def clauses(self):
+        return [
+            Clause('C17.a_pattern_is_kept_as_given', ['C17'], when='return', text="implies('*' in path, self.path == path)"),
+            Clause('C17.a_directory_becomes_the_pattern_matching_its_entries', ['C17'], when='return',
+                   text="implies('*' not in path and is_dir(), "
+                        "self.path == (path + '*' if ends_with_sep(path) else path + '/' + '*'))",
+                   note='also for a directory named with a trailing separator'),
+            Clause('C17.anything_else_is_kept_as_given', ['C17'], when='return',
+                   text="implies('*' not in path and not is_dir(), self.path == path)"),
+            Clause('C17.starts_with_nothing_seen', ['C17'], when='return',
+                   text='len(self.seen) == 0 and self.poll_interval == poll_interval and base_inits == 1'),
+            Clause('C17.construction_never_fails', ['C17'], when='raise', text='False'),
+        ]
+
+
+ALL += [FilenamesInit]
